@@ -18,7 +18,12 @@
 //!              entry = ok:<rawhex> | call:<code>:<msghex>:<-|h<datahex>>
 //!      or  err:parse | err:invalidid | err:notpending | err:occupied | err:timeout | err:transport
 //!          | err:other:<hex of Debug>
-//!      or  ?bad-line | ?pre-failed:<class> | ?client:<class> | ?timeout | PANIC <hex>
+//! Single-call mode:   single <idkind:n|s> <pre> <item>
+//! same client and preliminary batch, then `request::<Box<RawValue>, _>("m0", rpc_params![])` (id = pre); the
+//! server answers with the element text of the one item, not wrapped in an array (p0 = the id as sent, p<k> =
+//! pre+k in the client's id kind; x<hex> and B<hex|-> both give the body verbatim).
+//! Output:  ok:<rawhex> | call:<code>:<msghex>:<-|h<datahex>> | err:<class as above>
+//! Both modes:  ?bad-line | ?pre-failed:<class> | ?client:<class> | ?timeout | PANIC <hex>
 use jrv::*;
 use jsonrpsee::core::client::{BatchResponse, ClientT, Error, IdKind};
 use jsonrpsee::core::params::BatchRequestBuilder;
@@ -50,6 +55,7 @@ enum Script {
 	Body(Vec<u8>),
 }
 struct Case {
+	single: bool,
 	idstr: bool,
 	pre: u64,
 	n: u64,
@@ -98,7 +104,16 @@ fn parse_item(it: &str) -> Option<Item> {
 }
 
 fn parse_case(line: &str) -> Option<Case> {
-	let t: Vec<&str> = line.split_whitespace().collect();
+	let mut t: Vec<&str> = line.split_whitespace().collect();
+	let single = t.first() == Some(&"single");
+	if single {
+		// `single <kind> <pre> <item>` is handled as `<kind> <pre> 1 <item>` with an unwrapped answer
+		if t.len() != 4 {
+			return None;
+		}
+		t.remove(0);
+		t.insert(2, "1");
+	}
 	if t.len() < 3 || !(t[0] == "n" || t[0] == "s") {
 		return None;
 	}
@@ -110,7 +125,7 @@ fn parse_case(line: &str) -> Option<Case> {
 		[b] if b.starts_with('B') => Script::Body(hx(&b[1..])?),
 		ref items => Script::Items(items.iter().map(|it| parse_item(it)).collect::<Option<Vec<_>>>()?),
 	};
-	Some(Case { idstr: t[0] == "s", pre, n, script })
+	Some(Case { single, idstr: t[0] == "s", pre, n, script })
 }
 
 #[derive(serde::Deserialize)]
@@ -120,14 +135,20 @@ struct ReqEntry {
 
 /// The HTTP body answering request number `seq` (0-based) of the case, whose body is `req`.
 fn reply(case: &Case, seq: usize, req: &[u8]) -> Option<Vec<u8>> {
-	let ids: Vec<Box<RawValue>> = serde_json::from_slice::<Vec<ReqEntry>>(req).ok()?.into_iter().map(|e| e.id).collect();
-	let mut out = vec![b'['];
+	let is_pre = case.pre > 0 && seq == 0;
+	let wrap = is_pre || !case.single;
+	let ids: Vec<Box<RawValue>> = if wrap {
+		serde_json::from_slice::<Vec<ReqEntry>>(req).ok()?.into_iter().map(|e| e.id).collect()
+	} else {
+		vec![serde_json::from_slice::<ReqEntry>(req).ok()?.id]
+	};
+	let mut out = if wrap { vec![b'['] } else { Vec::new() };
 	let sep = |out: &mut Vec<u8>, i: usize| {
 		if i > 0 {
 			out.push(b',')
 		}
 	};
-	if case.pre > 0 && seq == 0 {
+	if is_pre {
 		for (i, id) in ids.iter().enumerate() {
 			sep(&mut out, i);
 			out.extend(format!("{{\"jsonrpc\":\"2.0\",\"id\":{},\"result\":0}}", id.get()).bytes());
@@ -158,7 +179,9 @@ fn reply(case: &Case, seq: usize, req: &[u8]) -> Option<Vec<u8>> {
 			}
 		}
 	}
-	out.push(b']');
+	if wrap {
+		out.push(b']');
+	}
 	Some(out)
 }
 
@@ -235,6 +258,10 @@ async fn start_server(shared: Shared) -> Option<std::net::SocketAddr> {
 	None
 }
 
+fn call_s(e: &jsonrpsee::types::ErrorObject<'_>) -> String {
+	format!("call:{}:{}:{}", e.code(), hex(e.message().as_bytes()), opt_hex(e.data().map(|d| d.get().as_bytes())))
+}
+
 fn err_class(e: &Error) -> String {
 	match e {
 		Error::ParseError(_) => "parse".into(),
@@ -259,9 +286,7 @@ async fn batch(client: &impl ClientT, prefix: &str, n: u64) -> Result<(usize, us
 		.into_iter()
 		.map(|e| match e {
 			Ok(v) => format!("ok:{}", hex(v.get().as_bytes())),
-			Err(e) => {
-				format!("call:{}:{}:{}", e.code(), hex(e.message().as_bytes()), opt_hex(e.data().map(|d| d.get().as_bytes())))
-			}
+			Err(e) => call_s(&e),
 		})
 		.collect();
 	Ok((ok, failed, entries))
@@ -291,6 +316,13 @@ async fn run_case(line: &str, addr: std::net::SocketAddr, shared: &Shared) -> St
 			Ok(_) => return "?pre-failed:wrong-answer".to_string(),
 			Err(e) => return format!("?pre-failed:{}", err_class(&e)),
 		}
+	}
+	if case.single {
+		return match client.request::<Box<RawValue>, _>("m0", rpc_params![]).await {
+			Ok(v) => format!("ok:{}", hex(v.get().as_bytes())),
+			Err(Error::Call(e)) => call_s(&e),
+			Err(e) => format!("err:{}", err_class(&e)),
+		};
 	}
 	match batch(&client, "m", case.n).await {
 		Ok((ok, failed, entries)) => format!("batch:s={}/f={}:[{}]", ok, failed, entries.join(",")),
